@@ -24,7 +24,8 @@ def drive(exe, lines, timeout=900, max_aborts=5):
         if start < len(lines):
             if r.returncode == 0:
                 raise vlib.MachineryError('driver answered %d of %d lines but exited 0: %s' % (start, len(lines), r.stderr[-600:]))
-            aborts.append((start, r.stderr[-1500:]))
+            k = r.stderr.find('ERROR: AddressSanitizer')
+            aborts.append((start, r.stderr[k:k + 1800] if k >= 0 else r.stderr[-1500:]))
             start += 1
             if len(aborts) >= max_aborts:
                 break
